@@ -17,6 +17,7 @@ type E1 struct {
 	Scenarios []*vrt.Scenario
 	Deadline  time.Time
 	Workers   int
+	MaxViol   int // violations after which a scenario stops being explored (default 3)
 	// Shard: explore scenarios one after the other, handing subtrees of each
 	// to the worker processes (for few, very large scenarios). Default: whole
 	// scenarios are explored in parallel, one per worker process.
@@ -66,7 +67,7 @@ func (e *E1) Run() map[string]interface{} {
 	var many []*vrt.Stats
 	if len(e.Scenarios) >= 2 && e.Workers > 1 && !e.Shard {
 		var infra string
-		many, infra = vrt.ExploreMany(e.Scenarios, vrt.ExploreOpts{Workers: e.Workers, Deadline: e.Deadline, Recheck: 97})
+		many, infra = vrt.ExploreMany(e.Scenarios, vrt.ExploreOpts{Workers: e.Workers, Deadline: e.Deadline, Recheck: 97, MaxViol: e.MaxViol})
 		if infra != "" {
 			e.Rep.Infra = infra
 			return nil
@@ -87,7 +88,7 @@ func (e *E1) Run() map[string]interface{} {
 				perScn = append(perScn, map[string]interface{}{"scenario": s.Name, "skipped": "internal deadline"})
 				continue
 			}
-			st = vrt.Explore(s, vrt.ExploreOpts{Workers: e.Workers, Deadline: e.Deadline})
+			st = vrt.Explore(s, vrt.ExploreOpts{Workers: e.Workers, Deadline: e.Deadline, MaxViol: e.MaxViol})
 		}
 		if st.Infra != "" {
 			e.Rep.Infra = st.Infra
